@@ -189,6 +189,7 @@ def explore(ctx):
     for i in mism[:5]:
         ctx.tie_mismatch('compute (base run)', cases[i], refs[i], tie.model_compute_view(cases[i], 'c16_dump'))
     narrow_threshold_stream(ctx)
+    translation_edge_stream(ctx)
     # the relabellings the theorems speak about are the ones numpy performs
     rc.run_relabel_tie(ctx, 'c16_relab', ['flip', 'pad', 'swap', 'unit'], 240 if ctx.quick else 2400)
 
@@ -241,6 +242,57 @@ def narrow_threshold_stream(ctx):
         ctx.case_done(None, ('pow2', shape))
         if fails:
             ctx.oracle_failure({'stream': 'power-of-two sizes', 'shape': list(shape), 'data': arr.ravel().tolist() if npx <= 256 else '(%d values)' % npx}, fails)
+
+
+def translation_edge_stream(ctx):
+    """Translations v -> v + b with the parameters mapped along, where the arithmetic is delicate: (a) b = 2**52 or
+    2**53 - 64 (every sum exact, spacing of doubles 1) with a half-integral min_delta; (b) integer data moved across
+    zero with a fractional numpy-float threshold (-2.5 becomes 7.5).  The hierarchy must be the same.  Oracle only."""
+    rng = ctx.rng('c16-translate')
+    for it in range(150 if ctx.quick else 1500):
+        shape = rng.choice([(rng.randint(6, 14),), (3, 4), (4, 4), (3, 5)])
+        npx = int(np.prod(shape))
+        vals = [rng.randint(1, 12) for _ in range(npx)]
+        ident = list(range(npx))
+        if rng.random() < 0.5:
+            b = rng.choice([2 ** 52, 2 ** 53 - 64, 2 ** 52 + 1])
+            delta = rng.randint(0, 3) + 0.5
+            mv = rng.choice([0, 2])
+            base = np.array(vals, dtype=float).reshape(shape)
+            moved = base + float(b)                                      # exact
+            kw0 = dict(min_value=float(mv), min_delta=delta)
+            kw1 = dict(min_value=float(mv + b), min_delta=delta)
+            what = 'float64 data + %d, min_delta %r' % (b, delta)
+        else:
+            b = rng.choice([10, 7, 100])
+            dt = rng.choice(['int8', 'int16', 'int32', 'int64'])
+            t = rng.choice([-2.5, -0.5, -3.25, -1.75])
+            base = (np.array(vals, dtype=dt) - 6).reshape(shape)         # values -5 .. 6
+            moved = base + np.array(b, dtype=dt)
+            ftype = rng.choice([np.float64, np.float32])
+            kw0 = dict(min_value=ftype(t))
+            kw1 = dict(min_value=ftype(t + b))
+            what = '%s data + %d, min_value %s(%r) -> %r' % (dt, b, ftype.__name__, t, t + b)
+        info = {'stream': 'translations', 'shape': list(shape), 'data': [float(x) for x in base.ravel()], 'what': what}
+        try:
+            d0 = Dendrogram.compute(base, **kw0)
+            d1 = Dendrogram.compute(moved, **kw1)
+            h0, h1 = hierarchy_mapped(d0, shape, ident), hierarchy_mapped(d1, shape, ident)
+            # the base run against the definition, so that a failure is attributed to the right run
+            kept0 = sorted(p for p, v in enumerate(base.ravel().tolist()) if v > float(kw0['min_value']))
+            got0 = sorted(p for p, l in enumerate(d0.index_map.ravel().tolist()) if l >= 0)
+            fails = []
+            if 'min_delta' not in kw0 and got0 != kept0:
+                fails.append('%s: assigned pixels %s, pixels above the threshold %s' % (what, got0, kept0))
+            if h0 != h1:
+                fails.append('%s: hierarchy %s, before the translation %s' % (what, h1, h0))
+        except Exception as e:
+            fails = ['compute raised %r' % (e,)]
+            d0 = []
+        ctx.count('translation_edges=%s' % ('large offset' if 'min_delta' in kw0 else 'integers across zero'))
+        ctx.case_done(None, ('translate', tuple(vals), shape, what) if len(d0) >= 2 else None)
+        if fails:
+            ctx.oracle_failure(info, fails)
 
 
 def matches_known(k, case, fails, extra):
